@@ -90,6 +90,11 @@ func gen(r *harn.Rng, tier string) interface{} {
 			default:
 				gap = 2*sc.DelayNs + int64(r.Intn(1000))
 			}
+			if !flood && r.Bool(0.08) {
+				// an arrival that coincides with a periodic housekeeping timer of the filter or router
+				// (whole minutes after the last arrival or after the last forward)
+				gap = int64(r.Pick(1, 1, 2, 3))*int64(time.Minute) + int64(r.Pick(0, 0, 1))*sc.DelayNs + int64(r.Pick(0, 0, 0, -1, 1))
+			}
 			if gap < 0 {
 				gap = 0
 			}
